@@ -214,6 +214,9 @@ func (mltp MaskedLinearTransformationProtocol) AggregateShares(share1, share2, s
 	mltp.e2s.params.RingQ().AtLevel(share1.EncToShareShare.Value.Level()).Add(share1.EncToShareShare.Value, share2.EncToShareShare.Value, shareOut.EncToShareShare.Value)
 	mltp.s2e.params.RingQ().AtLevel(share1.ShareToEncShare.Value.Level()).Add(share1.ShareToEncShare.Value, share2.ShareToEncShare.Value, shareOut.ShareToEncShare.Value)
 
+	// The aggregate describes the same ciphertext as its operands (Transform compares it with the ciphertext's metadata).
+	shareOut.MetaData = share1.MetaData
+
 	return
 }
 
